@@ -90,7 +90,7 @@ class C15(Prop):
             "shape": st.sampled_from(["A", "O", "AO", "OA", "AAO"]),
             "key": st.sampled_from([b"k", b"", b"a/b", b"~", b"0", b"m~n"]),
         })
-        return st.one_of(*([self.doc_strategy()] * 30 + [deep]))
+        return gens.weighted((59, self.doc_strategy()), (1, deep))
 
     def doc_strategy(self):
         return st.fixed_dictionaries({
